@@ -41,7 +41,7 @@ def make_sequences(tier, seed):
     for j in range(nseq):
         limexp = rnd.choice([3, 4, 5, 6, 7, 8, 10, 13, 20, 50, 60]) if j % 3 else rnd.randint(3, 60)
         length = rnd.choice([5, 12, 30, 80, 200]) if tier != 'quick' else rnd.choice([5, 12, 30, 80, 200][:4 + (j % 7 == 0)])
-        kind = j % 6
+        kind = j % 8
         if kind == 0:      # random finite
             s = [rnd.gauss(0, 1) * 10 ** rnd.randint(-3, 3) for _ in range(length)]
         elif kind == 1:    # limit + geometric transients (converges, then stagnates at machine precision)
@@ -58,6 +58,15 @@ def make_sequences(tier, seed):
             for i in range(length):
                 acc += (-1) ** i / (i + 1.0)
                 s.append(acc)
+        elif kind == 6:    # runs of EXACT zeros between non-zero terms (zero differences with zero tolerance)
+            s = [0.0 if rnd.random() < 0.55 else float(rnd.randint(-3, 3)) * rnd.choice([1.0, 0.5, 1e-3]) for _ in range(length)]
+            if j % 16 == 6:
+                s[:3] = [0.0, 0.0, rnd.choice([1.0, -2.5, 1e-8])]
+        elif kind == 7:    # stalled neighbours: agree to a few ulps (not to one), next to a term of another magnitude
+            a = rnd.choice([1.0, -3.0, 1e-6, 7e5])
+            k = rnd.choice([2, 3, 4, 6])
+            first = [[a, a * (1 + k * EPS), 3.0 * a + 1.0], [3.0 * a + 1.0, a, a * (1 + k * EPS)], [a, 3.0 * a + 1.0, (3.0 * a + 1.0) * (1 - k * EPS)]][j % 3]
+            s = first + [rnd.gauss(0, 1) for _ in range(length - 3)]
         else:              # dyadic: hits exact convergence quickly
             k = rnd.randint(1, 3)
             s = [1.0 + sum(0.5 ** ((t + 1) * i) for t in range(k)) for i in range(length)]
